@@ -343,6 +343,9 @@ pub fn run(tier: &str) -> Result<Report, String> {
         let mut g = Gen::new(Alphabet::all_ops(ctx.nprops(), 3));
         let mut fs = g.closed_up_to(if tier == "quick" && ["imp1", "con2"].contains(&b.name.as_str()) { 4 } else { m });
         fs.extend(templates(&ctx.user, false, pool));
+        if tier != "quick" || ["imp1", "con2"].contains(&b.name.as_str()) {
+            fs.extend(crate::formulas::shared_operand_family(&ctx.user));
+        }
         if b.n >= 2 && tier != "quick" {
             fs.extend(crate::formulas::pair_family(&crate::formulas::plain_pool(&ctx.user), 8, false));
         }
@@ -463,6 +466,6 @@ pub fn run(tier: &str) -> Result<Report, String> {
     rep.evaluations += big_total;
     rep.distinct_nontrivial += big_total;
     rep.sample(json!({"network": "unc2", "formula": "(!{x}: (AG (EF {x})))", "check": "for each of the 4 valid colours: states of the parametrised result at that colour == model_check_formula on pick_witness(colour) == explicit-state oracle"}));
-    rep.rule = format!("(extended formulae with <= 3 (4) nodes + extended templates x label families with colour-dependent context sets on the multi-colour networks with <= 2 variables: slice of the parametrised result vs evaluation on the instantiated network with the slices of the context sets) every core network with more than one valid colour (and a sample of the all-2-variable family: one network per colour-count bucket, thorough six, <= 64 colours, formulae <= 3 nodes) x every closed plain formula with <= {m} nodes (quick: 4 on imp1 and con2) and every plain template formula x EVERY valid colour: the state set of the sanitised parametrised result at that colour must equal model_check_formula on the graph of SymbolicAsyncGraph::pick_witness(colour) (and the oracle evaluates every colour in isolation by construction). Bundled models: myeloid with the update functions of its first 2 (thorough: also 4) small-arity variables erased, all colours; thorough adds cell_division and 110_9v on a declared sub-lattice of colours (every 64th); both tiers: a synthetic 44-variable network with 16 384 colours (2^58 state-colour pairs, beyond exact double arithmetic; a rising chain that only moves in the colour where all 14 parameters are true), four fixed colours x EG/AF/EF/AG/EW over a single-state argument. distinct_nontrivial = number of (formula, colour) pairs compared");
+    rep.rule = format!("(extended formulae with <= 3 (4) nodes + extended templates x label families with colour-dependent context sets on the multi-colour networks with <= 2 variables: slice of the parametrised result vs evaluation on the instantiated network with the slices of the context sets) every core network with more than one valid colour (formulae: node-bounded, templates, the shared-operand family (A & B) | B ... over a pool of 11 closed formulae) (and a sample of the all-2-variable family: one network per colour-count bucket, thorough six, <= 64 colours, formulae <= 3 nodes) x every closed plain formula with <= {m} nodes (quick: 4 on imp1 and con2) and every plain template formula x EVERY valid colour: the state set of the sanitised parametrised result at that colour must equal model_check_formula on the graph of SymbolicAsyncGraph::pick_witness(colour) (and the oracle evaluates every colour in isolation by construction). Bundled models: myeloid with the update functions of its first 2 (thorough: also 4) small-arity variables erased, all colours; thorough adds cell_division and 110_9v on a declared sub-lattice of colours (every 64th); both tiers: a synthetic 44-variable network with 16 384 colours (2^58 state-colour pairs, beyond exact double arithmetic; a rising chain that only moves in the colour where all 14 parameters are true), four fixed colours x EG/AF/EF/AG/EW over a single-state argument. distinct_nontrivial = number of (formula, colour) pairs compared");
     Ok(rep)
 }
